@@ -228,7 +228,7 @@ def _same_list(a, b):
     return And(length(a) == length(b), implies(And(k >= 0, k < length(a)), mk_bool(_z3.Select(a.arr, k.t) == _z3.Select(b.arr, k.t))))
 
 
-@harness("C15", cases=[dict(at="end"), dict(at="nonlist"), dict(at="list")])
+@harness("C15", structural=True, cases=[dict(at="end"), dict(at="nonlist"), dict(at="list")])
 def seq_serialize_steps(case):
     """Seq.serialize: None at the end of data and for a non-list item; otherwise the loop of `SeqSer`"""
     if CTX.mode != "sym":
@@ -316,7 +316,7 @@ def seq_serialize_steps(case):
         check("result-is-(1,-joined-text)", isinstance(o.value, tuple) and len(o.value) == 2 and And(o.value[0] == 1, o.value[1] == SStr(_join_term(joins[0][1]))))
 
 
-@harness("C15")
+@harness("C15", structural=True)
 def seq_deserialize_steps(case):
     """Seq.deserialize: the loop of `SeqDes`"""
     if CTX.mode != "sym":
@@ -438,7 +438,7 @@ class Component(GhostVal):
         self.j = j
 
 
-@harness("C15", cases=[dict(at="end"), dict(at="nontuple"), dict(at="length"), dict(at="tuple")])
+@harness("C15", structural=True, cases=[dict(at="end"), dict(at="nontuple"), dict(at="length"), dict(at="tuple")])
 def tupl_serialize_steps(case):
     """Tupl.serialize: None at the end of data, for a non-tuple and for a tuple of another length; otherwise `TuplSer`"""
     if CTX.mode != "sym":
@@ -531,7 +531,7 @@ def tupl_serialize_steps(case):
         check("result-is-(1,-joined-text)", isinstance(o.value, tuple) and len(o.value) == 2 and And(o.value[0] == 1, o.value[1] == SStr(_join_term(joins[0][1]))))
 
 
-@harness("C15")
+@harness("C15", structural=True)
 def tupl_deserialize_steps(case):
     """Tupl.deserialize: the loop of `TuplDes`, result (ofs, [tuple of the components read])"""
     if CTX.mode != "sym":
@@ -607,7 +607,7 @@ def _grid_size(case, env):
     return dict(_height=None, _width=None), attr(env, "height"), attr(env, "width")
 
 
-@harness("C15", cases=[dict(size="env", at="end"), dict(size="env", at="nonlist"), dict(size="env", at="list"), dict(size="own", at="list")])
+@harness("C15", structural=True, cases=[dict(size="env", at="end"), dict(size="env", at="nonlist"), dict(size="env", at="list"), dict(size="own", at="list")])
 def grid_serialize_steps(case):
     """Grid.serialize: None at the end of data / for a non-list; otherwise rows 0..height-1 are concatenated and the
     single list is handed to Seq(base, height*width).serialize at the caller's index; that answer is returned"""
@@ -706,7 +706,7 @@ def grid_serialize_steps(case):
     check("and-its-answer-is-returned-unchanged", (o.value is None and ans is None) or _same_answer(o.value, ans))
 
 
-@harness("C15", cases=[dict(size="env"), dict(size="own")])
+@harness("C15", structural=True, cases=[dict(size="env"), dict(size="own")])
 def grid_deserialize_steps(case):
     """Grid.deserialize: Seq(base, height*width).deserialize at the caller's index; None is passed on; otherwise the flat
     list of height*width items is cut into `height` rows with ret[i][j] = flat[i*width + j], result (chars, [rows])"""
